@@ -297,7 +297,9 @@ class FlowContainer:
 
     def to_row_data_sheet(self, strip_uuids=False, numbered=False):
         target_headers = {"edges.*.condition"}
-        excluded_headers = {"obj_id", "_nodeId"} if strip_uuids else {}
+        excluded_headers = (
+            {"obj_id", "_nodeId", "wa_template.uuid"} if strip_uuids else {}
+        )
         rows = self.to_rows(numbered)
         row_parser = RowParser(FlowRowModel, CellParser())
         return RowDataSheet(row_parser, rows, target_headers, excluded_headers)
